@@ -18,6 +18,8 @@ TEXT={
  "C13":("process-level oracle (no panic), bounded return after the input is delivered or the peer closed, and a bound on the bytes held for incomplete messages read through an observation hook","6 C13"),
  "C07":("every message must come out of the peer's Receive with an identical payload; the wire oracle checks each emitted chunk's size against the negotiated chunk size and its MessageSize field and reassembles the chunks","6 C07"),
  "C08":("an independent implementation of the Part 6 secure conversation layout (written from the specification, standard library only) opens every chunk gopcua emits and gopcua accepts every chunk it produces, both roles","6 C08"),
+ "C09":("no message that was not sent may come out of either receiver, the message containing the modified chunk must not be delivered, the process must not panic","6 C09"),
+ "C10":("every request id comes out of the server channel's Receive at most once and every response handler runs at most once although a chunk was re-inserted verbatim","6 C10"),
  "C11":("wire oracle on every chunk the client writes: +1 numbering with legal wrap and contiguity of a message's chunks, under scheduler-controlled interleavings of senders and renewals","6 C11"),
  "C16":("renewal timing window judged from the wire in simulated time; zero failed requests and no channel error on a fault-free network around renewals","6 C16"),
  "C18":("every call that returns nil must have been handed the response carrying its own marker; no marker may be handed out twice; unsolicited responses must never be delivered","6 C18"),
